@@ -7,7 +7,7 @@ import Driver.Abi
 open Lean Driver
 
 def handlers : List (String → Json → Option (Except String Json)) :=
-  [Driver.Dwarf.handle, Driver.Cfi.handle, Driver.Adt.handle, Driver.Abi.handle]
+  [Driver.Dwarf.handle, Driver.Cfi.handle, Driver.Adt.handle, Driver.Abi.handle, Driver.Abi.handleCall]
 
 def dispatch (line : String) : Json :=
   match Json.parse line with
